@@ -30,6 +30,8 @@ FIXMAP = [
  ("fix: channel:send ignored the context", ("C11", "F-CH1")),
  ("fix: debug.getlocal listed dead locals", ("C17", "F-DBG1")),
  ("fix: break out of a block nested in a loop", ("C03", "F-BRK1")),
+ ("fix: a short comment starting with", ("C08", "F-LEX1")),
+ ("fix: form feed and vertical tab", ("C08", "F-LEX2")),
  ("fix: NumUsedRegisters did not cover", ("C07", "F-REG1")),
  ("fix: jumps longer than the sBx range", ("C07", "F-CMP2")),
  ("fix: bulk-move merging swallowed", ("C07", "F-MOVEN1")),
